@@ -419,8 +419,36 @@ func contextClose(t *tape.Tape, cfg sim.Config) (res sim.Result) {
 	if err != nil {
 		panic(err)
 	}
+	// optionally an importer of the owner's memory whose start function traps: the failed instantiation
+	// must leave nothing behind that keeps the owner's memory from being released with the owner
+	failedImporter := t.Choose(6) // 1: fails on an out-of-bounds data segment, 2: its start function traps
+	if failedImporter > 2 {
+		failedImporter = 0
+	}
+	if failedImporter > 0 {
+		fm := &wasmb.Module{}
+		fm.Imports = append(fm.Imports, wasmb.Import{Module: "own", Name: "mem", Kind: wasmb.KindMemory, Mem: wasmb.Limits{Min: 1, Max: 2, HasMax: true}})
+		if failedImporter == 1 {
+			fm.Datas = []wasmb.Data{{Offset: wasmb.ConstI32(0x7ffffff0), Bytes: []byte{1}}}
+		} else {
+			st := fm.AddFunc(nil, nil, nil, (&wasmb.Code{}).Unreachable().B, "")
+			fm.Start = &st
+		}
+		if _, err := rt.InstantiateWithConfig(ctx, fm.Encode(), wazero.NewModuleConfig().WithName("failing")); err == nil {
+			panic("harness: the importer was meant to fail its instantiation")
+		}
+		res.Stat("fault.failed_importer_of_the_shared_memory", 1)
+	}
 	var notifiedN atomic.Int64
-	nctx := experimental.WithCloseNotifier(ctx, experimental.CloseNotifyFunc(func(context.Context, uint32) { notifiedN.Add(1) }))
+	// the notification handler may itself use the module being closed (a call, which must fail)
+	reenter := t.Chance(1, 3)
+	nctx := experimental.WithCloseNotifier(ctx, experimental.CloseNotifyFunc(func(context.Context, uint32) {
+		if notifiedN.Add(1) == 1 && reenter && mod != nil {
+			if _, err := mod.ExportedFunction("five").Call(ctx); err == nil {
+				res.Fail("not-closed", "a call on the module from inside its own close notification succeeded")
+			}
+		}
+	}))
 	name := tape.Pick(t, []string{"a", ""})
 	mod, err = rt.InstantiateModule(nctx, cm, wazero.NewModuleConfig().WithName(name))
 	if err != nil {
@@ -483,7 +511,11 @@ func contextClose(t *tape.Tape, cfg sim.Config) (res sim.Result) {
 		return
 	}
 	owner.Close(ctx)
-	if n := frees.Load(); n != 1 {
+	if n := frees.Load(); n == 0 && failedImporter == 2 {
+		// recorded known finding: an importer whose START FUNCTION failed never gives its use of the memory
+		// back (the start function may have stored references to its functions anywhere)
+		res.Known = append(res.Known, "failed-importer-pins-exporters-allocator-memory")
+	} else if n != 1 {
 		res.Fail("shared-resource-released", "after the exporting module was closed too, its custom-allocator memory was freed %d times (expected exactly once)", n)
 		return
 	}
